@@ -327,7 +327,10 @@ CTX_BEFORE = ['', '  ', '\t', '{ ', '; ', '=> ', 'return ', 'break ', 'let _ = '
               # ordinary literals with comment-like or macro-like text before the statement on its line
               'let u = "http://h"; ', 'let g = "src/*"; ', 'let r = r#"x // y "z" "#; ', 'let s = "see info!("; ', "let q = ('\\'', b'/', '/'); ",
               # raw byte / C strings: a trailing backslash and an odd number of quotes are plain content there
-              'let p = br"C:\\data\\"; ', 'let h = cr#"type "q to quit: "#; ', 'let e = r"\\"; ']
+              'let p = br"C:\\data\\"; ', 'let h = cr#"type "q to quit: "#; ', 'let e = r"\\"; ',
+              # the statement as the value of a key-value-shaped argument of another macro invoked with parentheses (round 16; see the
+              # open C10 finding in DESIGN section 11: with `; "literal"` after it the outer invocation has the shape of a log statement)
+              'm!( a = ']
 CTX_AFTER = [';\n', ')\n', ' }\n', ',\n', ';', '; "done" } }\n', '; "lit" ]\n']   # index 4: end of file without a newline
 
 
